@@ -206,6 +206,30 @@ def compressAll (l : Lib) (s : CState) : List Bytes → CState
   | [] => s
   | m :: t => compressAll l (cstep l (cstep l (cstep l s .reset) (.write m)) .close) t
 
+/-! ## construction in an environment
+
+What the process may use when an instance is constructed.  None of the constructors of
+`internal/compression` reads it: `zstd.NewWriter(nil)` / `zstd.NewReader(nil)` and the other
+library constructors are called with the libraries' defaults, which work for every value. -/
+
+structure Env where
+  /-- `runtime.GOMAXPROCS(0)`, at least 1 -/
+  procs : Nat
+deriving DecidableEq, Repr
+
+/-- `GetDecompressor` / `tracer.GetDecompressor` / the `New…Decompressor` constructors, called in `e` -/
+def construct (_e : Env) (k : Kind) : St := init k
+
+/-- `GetCompressor` / the `New…Compressor` constructors, called in `e` -/
+def cconstruct (_e : Env) : CState := cinit
+
+/-- a compressor and a decompressor freshly constructed in `e`, used for a list of messages:
+each message is compressed into a destination of its own, each destination goes through the
+decompressor as one pooled cycle; the results the caller gets -/
+def freshRoundTrip (l : Lib) (e : Env) (k : Kind) (ms : List Bytes) : List Out :=
+  let c := compressAll l (cconstruct e) ms
+  (runH l (construct e k) ((c.done ++ c.dst.toList).map HStep.msg)).2
+
 /-! ## names -/
 
 inductive Alg where
